@@ -105,7 +105,11 @@ def get_yaml_default_dumper():
 def yaml_load(stream):
     import yaml
 
-    value = yaml.load(stream, Loader=get_yaml_default_loader())
+    try:
+        value = yaml.load(stream, Loader=get_yaml_default_loader())
+    except (ValueError, AttributeError, IndexError, KeyError) as ex:
+        # PyYAML's constructors fail with these for scalars that a resolver matched but that do not denote a value (0x_, ._, !!int x, ...)
+        raise yaml.YAMLError(f"{type(ex).__name__}: {ex}") from ex
     if isinstance(value, dict) and value and all(v is None for v in value.values()):
         if len(value) == 1 and stream.strip() == next(iter(value.keys())) + ":":
             value = stream
